@@ -1374,7 +1374,7 @@ class Collection(object):
                 except ValueError:
                     pass
             elif isinstance(doc, dict):
-                if updater is _unset_updater and part not in doc:
+                if updater in (_unset_updater, _pop_updater) and part not in doc:
                     # If the parent doesn't exists, so does it child.
                     return
                 doc = doc.setdefault(part, {})
@@ -2294,6 +2294,9 @@ def _pop_updater(doc, field_name, value):
         raise WriteError('$pop expects 1 or -1, found: ' + str(value))
 
     if isinstance(doc, dict):
+        if field_name not in doc:
+            # nothing to pop from
+            return
         if isinstance(doc[field_name], (tuple, list)):
             doc[field_name] = list(doc[field_name])
             _pop_from_list(doc[field_name], value)
